@@ -15,12 +15,32 @@ Ec(e) == [F |-> e.ec[1], C |-> e.ec[2], S |-> e.ec[3], R |-> e.ec[4], E |-> e.ec
 PosVerdict(e) ==
   IF e.outcome # "ok" THEN "raised"
   ELSE LET seg == ParseSeg(e.enc, Ec(e)) IN
-       IF ~OnlyLeafAt(seg, e.i, e.j, e.s, e.val) THEN "position"
+       IF e.i = 0      \* a segment without fields: instantiated, encoded and parsed, nothing to place
+       THEN (IF \A n \in 1..Len(seg.fields) : NonEmptyLeaves(seg.fields[n]) = {} THEN "ok" ELSE "position")
+       ELSE IF ~OnlyLeafAt(seg, e.i, e.j, e.s, e.val) THEN "position"
        ELSE IF e.pnames # (IF seg.name = MSHname THEN <<"MSH_1", e.name>> ELSE <<e.name>>) THEN "parsed_name"
        ELSE IF e.pread # e.val THEN "parsed_value"
        ELSE "ok"
 
+(* ---------------- C02: several positions populated at once ---------------- *)
+\* e = [k |-> "full", idx : Seq(Nat), vals : Seq(Text), enc, pnames, preads]: field idx[n] holds vals[n], nothing else
+FirstLeaf(f) == f[1][1][1]
+FullVerdict(e) ==
+  IF e.outcome # "ok" THEN "raised"
+  ELSE LET seg == ParseSeg(e.enc, Ec(e))
+           lo == IF seg.name = MSHname THEN 3 ELSE 1
+           want(n) == IF \E k \in 1..Len(e.idx) : e.idx[k] = n
+                      THEN e.vals[CHOOSE k \in 1..Len(e.idx) : e.idx[k] = n] ELSE <<>>
+       IN IF \E k \in 1..Len(e.idx) : e.idx[k] > Len(seg.fields) THEN "position"
+          ELSE IF \E n \in lo..Len(seg.fields) :
+                    \/ (want(n) = <<>> /\ NonEmptyLeaves(seg.fields[n]) # {})
+                    \/ (want(n) # <<>> /\ NonEmptyLeaves(seg.fields[n]) # {[r |-> 1, c |-> 1, s |-> 1, t |-> want(n)]})
+               THEN "position"
+          ELSE IF e.preads # e.vals THEN "parsed_value"
+          ELSE "ok"
+
 Verdict(e) == CASE e.k = "pos" -> PosVerdict(e)
+                [] e.k = "full" -> FullVerdict(e)
                 [] OTHER -> "unknown_event_kind"
 Premise(e) == TRUE
 
